@@ -16,8 +16,10 @@
 #define NCELL (MAXE)
 #elif DIM == 2
 #define NCELL (MAXE*MAXE)
-#else
+#elif DIM == 3
 #define NCELL (MAXE*MAXE*MAXE)
+#else
+#define NCELL (MAXE*MAXE*MAXE*MAXE)
 #endif
 static void in_shape(u64* s, int n){ for (int i = 0; i < n; i++) s[i] = in_u64(1, MAXE); }
 static void in_data(u32* d, int n){ for (int i = 0; i < n; i++) d[i] = in_any32(); }
